@@ -59,7 +59,7 @@ NotifSilent == (HasNotif /\ ~R.out.raised) => Len(Rep) <= Len(A)
 CallsExact == R.out.raised \/ \A j \in 1..Len(Es) : (R.entries[j].alias > 0 \/ Len(Es) = 1) => R.entries[j].ncalls = O.per[j].calls
 NotifOnce == R.out.raised \/ \A j \in 1..Len(Es) : (Valid(Es[j]) /\ Notif(Es[j]) /\ (R.entries[j].alias > 0 \/ Len(Es) = 1)) => R.entries[j].ncalls = O.per[j].calls
 \* ---------------- C05
-CodeText(c) == CASE c = -32700 -> "-32700" [] c = -32600 -> "-32600" [] c = -32601 -> "-32601" [] c = -32602 -> "-32602" [] c = -32603 -> "-32603" [] OTHER -> "?"
+CodeText(c) == CASE c = -32700 -> "-32700" [] c = -32600 -> "-32600" [] c = -32601 -> "-32601" [] c = -32602 -> "-32602" [] c = -32603 -> "-32603" [] c = -32050 -> "-32050" [] OTHER -> "?"
 IsResult(r) == IF Has(r, "s:jsonrpc") THEN Has(r, "s:result") /\ ~Has(r, "s:error")
                ELSE Has(r, "s:error") /\ Get(r, "s:error") = VNone
 CodeOK(r, codes) == \/ (0 \in codes /\ IsResult(r))
